@@ -9,8 +9,9 @@ banked registers and SPSRs, ELR_hyp, every system/protection/translation registe
 region unchanged, or (ii) an exception entry dispatched by the emulator (validated by the C11 entry model) whose SPSR
 records User mode.
 
-Scenario 'unpriv_ldst': LDRT/STRT/LDRBT/STRBT/LDRHT/STRHT/LDRSBT/LDRSHT executed in privileged modes against MPU region sets:
-must abort exactly when models/mpu denies a *User* access; the plain LDR/STR twin at the same address is the control."""
+Scenario 'unpriv_ldst': LDRT/STRT/LDRBT/STRBT/LDRHT/STRHT/LDRSBT/LDRSHT executed in privileged modes against MPU region sets, or
+(VMSA) against small pages and a section with every AP value under a client or manager domain: must abort exactly when the
+permission model denies a *User* access; the plain LDR/STR twin at the same address is the control."""
 from sim import gen as G, machine as M
 from sim.asm import A, T
 from sim.entrymon import EntryMonitor
@@ -23,7 +24,8 @@ LEVEL = 'exploration'
 BUDGET_S = {'quick': 120, 'thorough': 1800}
 RULE = ("user_adversary runs: seeded User-mode instruction streams (privileged-operation encodings with random fields, bit-flipped and random "
         "words, vocabulary; both ISAs; IT positions) under seeded configurations, security state and MPU region sets, with IRQ/FIQ and forced "
-        "returns; unpriv_ldst runs: unprivileged load/store variants in privileged modes vs the MPU model with ispriv=False. distinct_nontrivial "
+        "returns (VMSA configurations also with the MMU on and privileged-only pages over the handler stacks and the translation tables); unpriv_ldst runs: "
+        "unprivileged load/store variants in privileged modes vs the MPU model, or vs VMSA page/section AP and domain, with ispriv=False. distinct_nontrivial "
         "= distinct (opcode class or decoder outcome, outcome in {no-op, user-visible change, exception kind, not-implemented}) pairs executed "
         "from User mode, plus distinct (instruction, AP, direction, outcome) tuples of unpriv_ldst.")
 ASSUMPTIONS = [
